@@ -354,6 +354,12 @@ func getEnumVisited(ast *parser.Thrift, name string, seen map[typedefKey]bool) (
 				// the typedef names a definition of that include which is not an enum
 				return nil, -1
 			}
+			if x.Type.KeyType != nil || x.Type.ValueType != nil {
+				return nil, -1 // a container type: its keyword is not the name of a definition
+			}
+			if _, isBase := categoryMap[x.Type.Name]; isBase {
+				return nil, -1
+			}
 			return getEnumVisited(ast, x.Type.Name, seen)
 		}
 	}
